@@ -132,7 +132,13 @@ class NodeMaker:
         else:
             d = succeed(keypair)
         d.addCallback(n.create_with_keys, contents, version=version)
-        d.addCallback(lambda res: n)
+        def _created(res):
+            # whoever resolves this file's cap from now on must get this
+            # object, so that their operations and our caller's are
+            # serialized
+            self._node_cache[b"M" + n.get_uri()] = n
+            return n
+        d.addCallback(_created)
         return d
 
     def create_new_mutable_directory(
@@ -154,6 +160,10 @@ class NodeMaker:
                                      version=version,
                                      keypair=keypair)
         d.addCallback(self._create_dirnode)
+        def _created(dirnode):
+            self._node_cache[b"M" + dirnode.get_uri()] = dirnode
+            return dirnode
+        d.addCallback(_created)
         return d
 
     def create_immutable_directory(self, children, convergence=None):
